@@ -63,3 +63,55 @@ Fixpoint run_types (w : wtype) (ops : list (op cls)) : list toutcome :=
   | [] => []
   | o :: rest => let x := tstep w o in x :: run_types (tnext x) rest
   end.
+
+(* ---- the hand-written transition function (Model/PTypeMeta.v abstracted to states) ------------
+   What lentil's code does to (type, content), written down by hand from plane.py / propagate.py:
+   the refusals and their order, the forced image type, and the evolution of the content (tilt
+   objects, emptiness) that the generated tables only record. *)
+From LV Require Export Model.PTypeMeta.
+
+Inductive mkind := MKPlane | MKPupil | MKImage | MKTilt.
+Definition mk_of (k : pkind) : mkind :=
+  match k with KindPlane => MKPlane | KindPupil _ => MKPupil | KindImage => MKImage | KindTilt => MKTilt end.
+(* which multiply() the public classes run; Rotate and Flip have their own, broken, one *)
+Definition ckind (k : cls) : option mkind :=
+  match k with
+  | KPlane | KLensletArray => Some MKPlane
+  | KPupil => Some MKPupil
+  | KImage => Some MKImage
+  | KTilt | KDispersiveTilt | KGrism => Some MKTilt
+  | KRotate | KFlip => None
+  end.
+(* both operands carry a pixel scale and the two differ *)
+Definition mism_of (a b : psc) : bool :=
+  match a, b with Some x, Some y => negb (psc_eqb x y) | _, _ => false end.
+
+Definition mul_content (mk : mkind) (clip : bool) (c : content) : content :=
+  match c with
+  | Empty => Empty
+  | _ => if clip then Empty else match mk with MKTilt => Tilted | _ => c end
+  end.
+Definition hand_mul_outcome (mk : mkind) (p : ptype) (clip mism : bool) (s : wstate) : outcome :=
+  match hand_table (ty s) p with
+  | None => Raises ETypeError s
+  | Some t =>
+      if mism then Raises EValueError s
+      else Yields (St (match mk with MKImage => WImage | _ => t end) (mul_content mk clip (body s)))
+  end.
+Definition hand_prop_outcome (m : method) (s : wstate) : outcome :=
+  match m with
+  | Fft =>
+      if tilted s then Raises ENotImplementedError s else
+      match propagate_ptype (ty s) with
+      | Err _ => Raises ETypeError s
+      | Ok t => Yields (St t Plain)
+      end
+  | Dft =>
+      match propagate_ptype (ty s) with
+      | Err _ => Raises ETypeError s
+      | Ok t => Yields (St t (match body s with Empty => Empty | _ => Plain end))
+      end
+  end.
+(* the ptype attribute an instance carries *)
+Definition inst_ptype (k : cls) (po : option ptype) : ptype :=
+  match po with Some p => p | None => observed_class_ptype k end.
